@@ -134,10 +134,10 @@ func (w *world) setVesting(target osmomath.Int) {
 }
 
 // setPoolIncentives configures what the pool-incentives hook does with its share:
-// "none": no distribution records (all to the community pool); "gauges": records for
+// "none": no distribution records (all to the community pool); "zero": a record list of total weight zero (same); "gauges": records for
 // real gauges only; "mixed": gauge 0 (= community pool) and real gauges.
 func (w *world) setPoolIncentives(kind string, weights []int64) {
-	if kind != "none" && len(w.gauges) == 0 {
+	if kind != "none" && kind != "zero" && len(w.gauges) == 0 {
 		pid := w.PrepareBalancerPool()
 		for _, d := range w.App.PoolIncentivesKeeper.GetLockableDurations(w.Ctx) {
 			g, err := w.App.PoolIncentivesKeeper.GetPoolGaugeId(w.Ctx, pid, d)
@@ -151,6 +151,8 @@ func (w *world) setPoolIncentives(kind string, weights []int64) {
 	recs := []pitypes.DistrRecord{}
 	switch kind {
 	case "none":
+	case "zero": // records exist, their weights are all zero (how governance says "no incentivised pool"): all to the community pool
+		recs = append(recs, pitypes.DistrRecord{GaugeId: 0, Weight: osmomath.ZeroInt()})
 	case "gauges":
 		for i, g := range w.gauges {
 			if i < len(weights) && weights[i] > 0 {
@@ -421,7 +423,7 @@ func genHistory(rng *rand.Rand, w *world, hi, minEpochs, maxEpochs int) history 
 	}
 
 	// what pool-incentives does with its share
-	h.pi = []string{"none", "gauges", "mixed", "gauges", "none"}[hi%5]
+	h.pi = []string{"none", "gauges", "mixed", "gauges", "zero"}[hi%5]
 	for i := 0; i < 4; i++ {
 		h.piW = append(h.piW, int64(rng.Intn(1000)))
 	}
